@@ -9,7 +9,7 @@ import json
 from harness.enc import IdMap, tag, untag
 from pyg_base import dictable
 
-FN = {'copy_a': lambda a: a, 'a_or_2': lambda a: 2 if a is None else a, 'const_x': lambda: 'x'}
+FN = {'copy_a': lambda a: a, 'a_or_2': lambda a: 2 if a is None else a, 'const_x': lambda: 'x', 'copy_key': lambda key: key}
 DO = lambda v: 0 if v is None else v
 SLICES = {'first': slice(0, 1), 'tail': slice(1, None), 'even': slice(None, None, 2), 'last': slice(-1, None), 'none': slice(None, 0), 'rev': slice(None, None, -1)}
 
@@ -74,6 +74,8 @@ def step(regs, h, ids, k):
             res = d.do(DO, *h['cs']) if (k % 2 or not h['cs']) else d.do(DO, list(h['cs']))
         elif op == 'Rename':
             res = d.relabel(**{h['c']: h['c2']}) if k % 2 else d.rename(**{h['c']: h['c2']})
+        elif op == 'Swap':
+            res = d.relabel(**{h['c']: h['c2'], h['c2']: h['c']}) if k % 2 else d.rename({h['c']: h['c2'], h['c2']: h['c']})
         elif op == 'AddRecord':
             res = d + {c: untag(v, ids) for c, v in h['rec']}
         elif op == 'Copy':
@@ -159,7 +161,7 @@ def check(ctx, snap, where):
 
 POOL = [["n", 0], ["i", 1], ["i", 2], ["i", 0], ["s", "x"], ["s", ""], ["s", "yy"], ["f", [5, 2]], ["f", [1, 1]], ["nan", 1], ["nan", 2],
         ["d", [730120, 0, 0]], ["d", [730121, 3600, 7]], ["b", 1]]
-COLS = ['a', 'b', 'c', 'e']
+COLS = ['a', 'b', 'c', 'e', 'key']
 
 
 def rand_event(rng, regs):
@@ -192,7 +194,7 @@ def rand_event(rng, regs):
         n = 0
     cols = list(dict.keys(d))
     rd = rng.choice(['r1', 'r2', 'r3'])
-    op = rng.choice(['SetCol', 'SetCol', 'DelCol', 'Update', 'Slice', 'Slice', 'Mask', 'Take', 'Project', 'Derive', 'Do', 'Rename', 'Concat', 'AddRecord', 'Copy', 'NoFilter', 'AddNone', 'ConcatOne'])
+    op = rng.choice(['SetCol', 'SetCol', 'DelCol', 'Update', 'Slice', 'Slice', 'Mask', 'Take', 'Project', 'Derive', 'Do', 'Rename', 'Swap', 'Concat', 'AddRecord', 'Copy', 'NoFilter', 'AddNone', 'ConcatOne'])
     def colarg():
         q = rng.random()
         if q < 0.3: return ['s', val()]
@@ -216,8 +218,10 @@ def rand_event(rng, regs):
     if op == 'Project':
         return {'op': op, 'r': r, 'rd': rd, 'cs': rng.sample(cols, rng.randint(1, len(cols))) if cols and rng.random() < 0.85 else ['a', 'e']}
     if op == 'Derive':
-        c, f = rng.choice([('c', 'copy_a'), ('a', 'a_or_2'), ('b', 'const_x'), ('e', 'const_x'), ('e', 'copy_a')])
-        if f != 'const_x' and 'a' not in cols:
+        c, f = rng.choice([('c', 'copy_a'), ('a', 'a_or_2'), ('b', 'const_x'), ('e', 'const_x'), ('e', 'copy_a'), ('c', 'copy_key'), ('new', 'copy_key')])
+        if f == 'copy_key' and 'key' not in cols:
+            f = 'const_x'
+        if f in ('copy_a', 'a_or_2') and 'a' not in cols:
             f = 'const_x'
         return {'op': op, 'r': r, 'rd': rd, 'c': c, 'f': f}
     if op == 'Do':
@@ -227,6 +231,11 @@ def rand_event(rng, regs):
         fresh = [x for x in ('d', 'z', 'y') if x not in cols]
         if not fresh: return {'op': 'Copy', 'r': r, 'rd': rd}
         return {'op': op, 'r': r, 'rd': rd, 'c': rng.choice(cols), 'c2': rng.choice(fresh)}
+    if op == 'Swap':
+        two = [c for c in cols]
+        if len(two) < 2: return {'op': 'Copy', 'r': r, 'rd': rd}
+        c, c2 = rng.sample(two, 2)
+        return {'op': op, 'r': r, 'rd': rd, 'c': c, 'c2': c2}
     if op == 'Concat':
         return {'op': op, 'ra': r, 'rb': rng.choice(live), 'rd': rd}
     if op == 'AddRecord':
